@@ -8,6 +8,25 @@ impl Copy for Instant {}
 pub struct JoinHandle { _p: u8 }
 #[verifier::external_body]
 pub struct DeferredEventData { _p: u8 }
+#[verifier::external_body]
+pub struct Duration { _p: u8 }
+impl Clone for Duration { #[verifier::external_body] fn clone(&self) -> (r: Self) ensures r == *self { unimplemented!() } }
+impl Copy for Duration {}
+impl DeferredEventData {
+    // wall-clock bookkeeping of one pending deferral: times are opaque
+    #[verifier::external_body]
+    pub fn new() -> (r: DeferredEventData) { unimplemented!() }
+    #[verifier::external_body]
+    pub fn update_last_time(&mut self) { unimplemented!() }
+    #[verifier::external_body]
+    pub fn next_deadline(&self, min: Duration, max: Duration) -> (r: Instant) { unimplemented!() }
+    // `deferred.last_time.elapsed() >= min || deferred.first_time.elapsed() >= max`: any answer
+    #[verifier::external_body]
+    pub fn is_due(&self, min: Duration, max: Duration) -> (r: bool) { unimplemented!() }
+}
+// `deadline < prev_deadline` on Instants: any answer
+#[verifier::external_body]
+pub fn instant_lt(a: Instant, b: Instant) -> (r: bool) { unimplemented!() }
 pub struct Msg { pub optype: OperationType, pub predicate: Option<ActiveBlobPred> }
 #[verifier::external_body]
 pub struct ActiveBlobPred { _p: u8 }
@@ -41,6 +60,10 @@ pub fn complete_task(t: &mut Option<JoinHandle>, name: &str) ensures *final(t) i
 #[verifier::external_body]
 pub struct InnerRef { _p: u8 }
 impl InnerRef {
+    #[verifier::external_body]
+    pub fn deferred_min_time(&self) -> (r: Duration) { unimplemented!() }
+    #[verifier::external_body]
+    pub fn deferred_max_time(&self) -> (r: Duration) { unimplemented!() }
     #[verifier::external_body]
     pub fn close_active_blob(&self) -> (r: Result<(), VErr>) { unimplemented!() }
     #[verifier::external_body]
